@@ -141,6 +141,26 @@ pub fn min_utxo_template(outputs: usize) -> Template {
     Template { src, tx: "t".into() }
 }
 
+/// A mint under a Plutus (version 1-3, with a redeemer) or native script: the witness set, and with it the
+/// language view behind the script data hash, differs from template to template.
+pub fn script_template(version: u8, outputs: usize) -> Template {
+    let mut extra = String::new();
+    for i in 0..outputs {
+        extra.push_str(&format!("    output o{i} {{\n        to: Receiver,\n        amount: Ada({}),\n    }}\n", 1_500_000 + i * 3));
+    }
+    let (redeemer, witness) = if version == 0 {
+        ("", "    cardano::native_witness {\n        script: 0x820181820400,\n    }\n".to_string())
+    } else {
+        ("        redeemer: (),\n", format!("    cardano::plutus_witness {{\n        version: {version},\n        script: 0x5101010023259800a518a4d136564004ae69,\n    }}\n"))
+    };
+    let src = format!(
+        "party Sender;\nparty Receiver;\n\ntx t(quantity: Int) {{\n    locals {{\n        new_token: AnyAsset(0xbd3ae991b5aafccafe5ca70758bd36a9b2f872f57f6d3a1ffa0eb777, \"ABC\", quantity),\n    }}\n    input source {{\n        from: Sender,\n        min_amount: fees + Ada({}),\n    }}\n    collateral {{\n        from: Sender,\n        min_amount: fees,\n    }}\n    mint {{\n        amount: new_token,\n{redeemer}    }}\n{extra}    output {{\n        to: Receiver,\n        amount: source + new_token - fees - Ada({}),\n    }}\n{witness}}}\n",
+        outputs * 1_500_000 + outputs * outputs.saturating_sub(1) / 2 * 3,
+        outputs * 1_500_000 + outputs * outputs.saturating_sub(1) / 2 * 3,
+    );
+    Template { src, tx: "t".into() }
+}
+
 pub fn args_for(q: i128) -> BTreeMap<String, ArgValue> {
     BTreeMap::from([
         ("sender".to_string(), ArgValue::Address(ADDR_A.to_vec())),
@@ -243,7 +263,9 @@ pub fn run_c20(opts: &Opts, out: &mut Emitter) {
     let mut r = Rng::new(opts.seed ^ 0x2020);
     let pp = || store::pparams(false, 44, 155_381, 4310, true);
     let mk_template = |r: &mut Rng| -> Template {
-        if r.chance(1, 2) {
+        if r.chance(1, 3) {
+            script_template(r.below(4) as u8, r.below(3) as usize)
+        } else if r.chance(1, 2) {
             min_utxo_template(r.below(5) as usize)
         } else {
             template(r.below(5) as usize, r.below(4) as usize)
@@ -261,11 +283,11 @@ pub fn run_c20(opts: &Opts, out: &mut Emitter) {
             let t = mk_template(&mut r);
             // some history items fail (store too poor)
             let amt = if r.chance(1, 4) { 10 } else { r.range(20_000_000, 90_000_000) as i128 };
-            h.push((t, *r.pick(&[1_000_000i128, 3_000_000]), vec![amt]));
+            h.push((t, *r.pick(&[1_000_000i128, 3_000_000]), vec![amt, 7_000_000]));
         }
         let t = mk_template(&mut r);
         let amt = if r.chance(1, 8) { 10 } else { r.range(20_000_000, 90_000_000) as i128 };
-        plans.push((h, (t, *r.pick(&[1_000_000i128, 3_000_000]), vec![amt])));
+        plans.push((h, (t, *r.pick(&[1_000_000i128, 3_000_000]), vec![amt, 7_000_000])));
     }
     for (k, (history, target)) in plans.into_iter().enumerate() {
         let Some(target_tx) = lower(&target.0) else { continue };
